@@ -367,8 +367,9 @@ ModelOutcome(c) == EvalFrom(c, 1, Acc0, FALSE)
 VARIABLES cs, pc, acc, raised, phase, closes, result
 vars == <<cs, pc, acc, raised, phase, closes, result>>
 
-FInit == /\ cs \in Grid
-         /\ pc = 1 /\ acc = Acc0 /\ raised = <<"none", "none">> /\ phase = "running" /\ closes = 0 /\ result = "none"
+FInitIn(G) == /\ cs \in G
+              /\ pc = 1 /\ acc = Acc0 /\ raised = <<"none", "none">> /\ phase = "running" /\ closes = 0 /\ result = "none"
+FInit == FInitIn(Grid)
 
 HasStop == cs.opt = "cancelable"
 \* the next event: a recover(), nothing, or a Go panic reaching runRecoverable
@@ -411,7 +412,7 @@ ReferenceSane == RefOutcome(cs) \in PropertyOutcomes
 \* REFERENCE: showing any value in any template context either renders it or returns an error; Run never panics and
 \* the process does not die.  (These are values an embedder can pass for a declared global: none is an "invalid
 \* template variable value" in the sense of the documentation, which is about values not assignable to the variable.)
-ShowValues == {"embed_unexported", "embed_unexported_ptr", "embed_unexported_nilptr", "ptr_embed_unexported",
+ShowValues == {"nil_interface", "embed_unexported", "embed_unexported_ptr", "embed_unexported_nilptr", "ptr_embed_unexported",
    "slice_embed_unexported", "map_embed_unexported", "unexported_fields_only", "struct_chan_field", "struct_func_field",
    "nil_ptr_time", "nil_ptr_value_stringer", "nil_ptr_ptr_stringer", "nil_ptr_struct", "ptr_ptr_nil", "chan", "nil_chan",
    "func", "nil_func", "complex", "nil_map", "nil_slice", "map_int_key", "map_any_key", "map_struct_key", "slice_any_chan",
